@@ -4,8 +4,9 @@ package c14
 // with its buffer pool), after design probe o.
 
 import (
+	"errors"
+	"fmt"
 	"net"
-	"os"
 	"sync"
 	"time"
 )
@@ -20,10 +21,14 @@ type memPC struct {
 	cond     *sync.Cond
 	in       []dgram
 	out      []dgram
-	deadline time.Time
+	clock    vclock    // deadlines live on this virtual clock (see stream_test.go): only pause() lets time pass
+	rdl, wdl vdeadline // read / write deadline
 	closed   bool
 	waiting  bool
 	reads    int
+	wdlSets    []string // every SetWriteDeadline call
+	wdlExpired []string // every WriteTo that failed because the write deadline had passed
+	noAddr     int      // WriteTo calls without a destination address (refused, as a socket does)
 }
 
 func newMemPC() *memPC { p := &memPC{}; p.cond = sync.NewCond(&p.mu); return p }
@@ -35,8 +40,8 @@ func (p *memPC) ReadFrom(b []byte) (int, net.Addr, error) {
 		if p.closed {
 			return 0, nil, net.ErrClosed
 		}
-		if !p.deadline.IsZero() && !p.deadline.After(time.Now()) {
-			return 0, nil, os.ErrDeadlineExceeded
+		if p.clock.expired(p.rdl) {
+			return 0, nil, deadlineErr("read")
 		}
 		if len(p.in) > 0 {
 			k := p.in[0]
@@ -58,7 +63,17 @@ func (p *memPC) WriteTo(b []byte, a net.Addr) (int, error) {
 	if p.closed {
 		return 0, net.ErrClosed
 	}
+	if p.clock.expired(p.wdl) {
+		p.wdlExpired = append(p.wdlExpired, fmt.Sprintf("write of %d octets at virtual time %v: the write deadline passed at %v", len(b), p.clock.now(), p.wdl.at))
+		return 0, deadlineErr("write")
+	}
+	if a == nil {
+		// an unconnected datagram socket cannot send without a destination (unixgram: EINVAL, udp: "missing address")
+		p.noAddr++
+		return 0, &net.OpError{Op: "write", Net: "mem", Err: errors.New("missing address")}
+	}
 	p.out = append(p.out, dgram{append([]byte{}, b...), a})
+	p.cond.Broadcast()
 	return len(b), nil
 }
 
@@ -72,18 +87,56 @@ func (p *memPC) Close() error {
 
 func (p *memPC) LocalAddr() net.Addr { return &net.UDPAddr{IP: net.IPv4(127, 0, 0, 1), Port: 53} }
 func (p *memPC) SetDeadline(t time.Time) error {
+	p.SetWriteDeadline(t)
 	return p.SetReadDeadline(t)
 }
-func (p *memPC) SetWriteDeadline(t time.Time) error { return nil }
+func (p *memPC) SetWriteDeadline(t time.Time) error {
+	p.mu.Lock()
+	p.wdl = p.clock.deadline(t)
+	if p.wdl.set {
+		p.wdlSets = append(p.wdlSets, fmt.Sprintf("at virtual time %v: now+%v", p.clock.now(), time.Until(t).Round(time.Millisecond)))
+	} else {
+		p.wdlSets = append(p.wdlSets, fmt.Sprintf("at virtual time %v: none", p.clock.now()))
+	}
+	p.mu.Unlock()
+	return nil
+}
 func (p *memPC) SetReadDeadline(t time.Time) error {
 	p.mu.Lock()
-	p.deadline = t
+	p.rdl = p.clock.deadline(t)
 	p.cond.Broadcast()
 	p.mu.Unlock()
-	if d := time.Until(t); !t.IsZero() && d > 0 {
-		time.AfterFunc(d, func() { p.mu.Lock(); p.cond.Broadcast(); p.mu.Unlock() })
-	}
 	return nil
+}
+
+// pause lets d pass on the socket's virtual clock.
+func (p *memPC) pause(d time.Duration) {
+	p.clock.ns.Add(int64(d))
+	p.mu.Lock()
+	p.cond.Broadcast()
+	p.mu.Unlock()
+}
+
+// waitSent blocks until n datagrams have been written (true) or d of wall-clock time elapsed (false).
+func (p *memPC) waitSent(n int, d time.Duration) bool {
+	t := time.AfterFunc(d, func() { p.mu.Lock(); p.cond.Broadcast(); p.mu.Unlock() })
+	defer t.Stop()
+	end := time.Now().Add(d)
+	p.mu.Lock()
+	defer p.mu.Unlock()
+	for len(p.out) < n {
+		if p.closed || time.Now().After(end) {
+			return false
+		}
+		p.cond.Wait()
+	}
+	return true
+}
+
+func (p *memPC) deadlineLog() (sets, expired []string) {
+	p.mu.Lock()
+	defer p.mu.Unlock()
+	return append([]string{}, p.wdlSets...), append([]string{}, p.wdlExpired...)
 }
 
 func (p *memPC) inject(b []byte, a net.Addr) {
